@@ -148,6 +148,32 @@ def handle : Handler
         let d2 := HeatSpec.supDist out2 h
         some (if out1.length == k && out2.length == k && decide (d2 ≤ d1 + tol) then "holds"
               else s!"fails dist {showRat d1} -> {showRat d2}")) "bad-args"
+  -- `normalize(matrix)` itself: the stored entries (non-zero results, by increasing column) of every row
+  | "c14.normalize", [n, m, ip, ix, dt] => some <| Option.getD (do
+      let c ← csrRat? n m ip ix dt
+      let d := denseOf c
+      let rows := (List.range c.nRow).map fun i =>
+        ((List.range c.nCol).filter fun j => normalize c.nCol (entOf d) i j != 0).map fun j =>
+          (j, normalize c.nCol (entOf d) i j)
+      let indptr := rows.foldl (fun acc r => acc ++ [acc.getLast! + r.length]) [0]
+      let idx := rows.flatMap fun r => r.map (·.1)
+      let dat := rows.flatMap fun r => r.map (·.2)
+      some s!"ok {showList indptr} {showList idx} {showRatList dat}") "bad-args"
+  -- the clause `normalize_stochastic` on the implementation's own normalised matrix
+  | "c14.spec_stochastic", [n, m, ip, ix, dt, tol, qp, qx, qd] => some <| Option.getD (do
+      let c ← csrRat? n m ip ix dt
+      let q ← csrRat? n m qp qx qd
+      let tol ← rat? tol
+      let a := denseOf c
+      let qq := denseOf q
+      let ok := (List.range c.nRow).all fun i =>
+        let nullIn := (List.range c.nCol).all fun j => entOf a i j == 0
+        let nonnegIn := (List.range c.nCol).all fun j => decide (0 ≤ entOf a i j)
+        let l1 := HeatSpec.total c.nCol fun j => HeatSpec.absR (entOf qq i j)
+        (if nullIn then (List.range c.nCol).all fun j => entOf qq i j == 0
+         else decide (HeatSpec.absR (l1 - 1) ≤ tol)) &&
+        (!nonnegIn || (List.range c.nCol).all fun j => decide (0 ≤ entOf qq i j))
+      some (if ok then "holds" else "fails not-row-stochastic")) "bad-args"
   -- the same temperatures given as array, list and dict
   | "c14.spec_forms", [o1, o2, o3] =>
       some (if o1 == o2 && o2 == o3 then "holds" else "fails forms-differ")
